@@ -1,6 +1,6 @@
 (* Props/C14.v — C14: strconv parses and formats numbers consistently with the standard library.
    Statements only; each is closed by [exact] of a lemma proved in Strconv/*Proofs.v. *)
-From Verif Require Import Common.Base Strconv.Model Strconv.IntProofs Strconv.NumProofs.
+From Verif Require Import Common.Base Strconv.Model Strconv.FModel Strconv.IntProofs Strconv.NumProofs Strconv.DecProofs Strconv.ScanProofs.
 
 (* ParseInt, for EVERY byte string: written as sign ++ digits ++ rest (sign = "", "+" or "-";
    rest does not continue the digits; every string has such a decomposition, see
@@ -61,3 +61,38 @@ Theorem append_number_spec : forall b spare num dec gsize gs ds,
   append_number b spare num dec gsize gs ds = Ok (b ++ render num dec gsize gs ds).
 Proof. exact append_number_spec_proof. Qed.
 Print Assumptions append_number_spec.
+
+(* AppendDecimal: nothing is appended for NaN and the infinities; for a finite f whose scaled and
+   rounded value num = int64(f*10^dec +- 0.5) fits int64 (num <> MinInt64; see the level note for
+   the other case) the destination prefix is preserved and what is appended is the canonical
+   literal of num / 10^dec: '-' exactly when num < 0, integer digits without leading zeros, and
+   only if needed a dot and at most dec digits of which the last is not '0'; "0" for num = 0. *)
+Theorem append_decimal_shape : forall b spare f dec,
+  (f_finite f = false -> append_decimal b spare f dec = Ok b) /\
+  (f_finite f = true -> ad_scaled f (ad_dec dec) <> min_i64 ->
+   exists out, append_decimal b spare f dec = Ok (b ++ out) /\
+               dec_literal out (ad_scaled f (ad_dec dec)) (ad_dec dec)).
+Proof. exact append_decimal_shape_proof. Qed.
+Print Assumptions append_decimal_shape.
+
+(* ParseFloat never panics and, for EVERY byte string, consumes float_prefix_len b bytes: the
+   longest prefix of [+-]? mantissa ([eE][+-]?digits)? with at least one mantissa digit (0 if
+   there is none) -- except that an exponent whose value does not fit int64 is not consumed
+   (exp_len; a listed finding). *)
+Theorem parse_float_prefix : forall b, exists v, parse_float b = Ok (v, float_prefix_len b).
+Proof. exact parse_float_prefix_proof. Qed.
+Print Assumptions parse_float_prefix.
+
+(* ParseDecimal never panics and, for every byte string, consumes decimal_consumed b bytes: the
+   longest prefix of -? digits ('.' digits)? (digit runs possibly empty), 0 for a lone '.'. *)
+Theorem parse_decimal_prefix : forall b, exists v, parse_decimal b = Ok (v, decimal_consumed b).
+Proof. exact parse_decimal_prefix_proof. Qed.
+Print Assumptions parse_decimal_prefix.
+
+(* ... which for inputs that begin with a decimal number (at least one digit) is the documented
+   longest prefix of -? (d+ ('.' d..)? | '.' d+). *)
+Theorem parse_decimal_prefix_number : forall b,
+  0 < mant_digits (if match b with c :: _ => c =? 45 | [] => false end then tl b else b) ->
+  decimal_consumed b = decimal_prefix_len b.
+Proof. exact decimal_consumed_number. Qed.
+Print Assumptions parse_decimal_prefix_number.
